@@ -24,13 +24,27 @@ import vlib
 LEVEL = "model_checking"
 TRACE_MODULE = "RingTrace"
 TRACE_CFG = "RingTrace.cfg"
-SIG_FLAVOURS = ("sig", "usig", "vsig", "uvsig")
-OP_KEYS = ("op", "l", "l2", "x", "x2")
+SIG_FLAVOURS = ("sig", "usig", "vsig", "uvsig", "sig0", "usig0", "vsig0", "uvsig0", "sig2", "usig2", "vsig2", "uvsig2")
+OP_KEYS = ("op", "l", "l2", "x", "x2", "b", "mode")
+# Operation kinds the STATEMENT of C11 names (same set as InScopeOp in spec/RingTrace.tla, where the
+# clauses are quoted).  A history that contains any other kind (unlink, iterator steps, moves of
+# connection owners, containers, reentrant callbacks) is only OBSERVED: whatever it shows - a
+# disagreement with the specification or a sanitizer report - goes to coverage.observations and is
+# never a VIOLATION.
+IN_SCOPE_REASONS = {"forward-extra", "forward-missing", "forward-twice", "forward-order", "backward-extra", "backward-missing",
+                    "backward-twice", "backward-order", "forward-walk-leaves-the-list", "backward-walk-leaves-the-list",
+                    "empty", "called-extra", "called-missing", "called-twice", "called-order", "call-does-not-end",
+                    "left-fold", "unregister-not-run", "unregister-run-twice", "unregister-of-other-connection"}
+IN_SCOPE_OPS = {"list_ctor", "list_move_ctor", "list_move_assign", "list_dtor", "elem_ctor", "elem_move_ctor",
+                "elem_move_assign", "elem_dtor", "sig_ctor", "sig_move_ctor", "sig_move_assign", "sig_dtor",
+                "connect", "disconnect"}
 MAX_ABORTS_PER_WORKER = 12
 JUDGE_BATCH = 160000
 LIST_KINDS = ("list_ctor", "list_move_ctor", "list_move_assign", "list_dtor", "elem_ctor", "elem_move_ctor",
               "elem_move_assign", "elem_dtor", "unlink")
-SIG_KINDS = ("sig_ctor", "sig_move_ctor", "sig_move_assign", "sig_dtor", "connect", "disconnect")
+ITER_KINDS = LIST_KINDS + ("iter_begin", "iter_end", "iter_inc", "iter_dec", "iter_drop")
+SIG_KINDS = ("sig_ctor", "sig_move_ctor", "sig_move_assign", "sig_dtor", "connect", "disconnect",
+             "hold_move", "hold_assign", "box_ctor", "box_push", "box_dtor")
 
 # (config, invariant TLC must report violated): every invariant can fail
 GUARDS = [
@@ -48,6 +62,9 @@ GUARDS = [
     ("Signal", "MC_Signal_bug_unreg_twice.cfg", "LawUnregisterOnce"),
     ("Signal", "MC_Signal_bug_skip_first.cfg", "LawCallExplained"),
     ("Signal", "MC_Signal_bug_fold_right.cfg", "LawCallExplained"),
+    ("Ring", "MC_Ring_bug_iter.cfg", "IterRefines"),
+    ("Signal", "MC_Signal_bug_hold_move_copies.cfg", "LawOwnership"),
+    ("Signal", "MC_Signal_bug_box_dtor.cfg", "LawOwnership"),
 ]
 
 
@@ -111,6 +128,25 @@ def op_of(e):
     return {k: e[k] for k in OP_KEYS}
 
 
+def observe(ctx, signature, what, payload=None):
+    """A disagreement / sanitizer report OUTSIDE the statement of C11: recorded in the evidence
+    (coverage.observations), never a VIOLATION."""
+    o = ctx.extra.setdefault("observations", {"count": 0, "by_signature": {}, "examples": []})
+    o["count"] += 1
+    o["by_signature"][signature] = o["by_signature"].get(signature, 0) + 1
+    if o["by_signature"][signature] == 1 and len(o["examples"]) < 12:
+        o["examples"].append({"signature": signature, "what": what[:1200], "script": (payload or {}).get("script")})
+    if o["by_signature"][signature] == 1:
+        vlib.log("OBSERVED (outside the statement of C11, not a violation): %s: %s" % (signature, what[:400]))
+
+
+def in_scope_history(hist_lines, ops):
+    for l in hist_lines[:1]:
+        if '"e":"reset"' in l and json.loads(l).get("observed"):
+            return False
+    return all(o["op"] in IN_SCOPE_OPS for o in ops)
+
+
 def script_of(hist_lines):
     """(flavour, ops) of a history given as log lines (reset line first)."""
     fl = "list"
@@ -140,7 +176,7 @@ def hint(fl, ops):
 
 def fmt_ops(ops):
     def one(o):
-        args = [str(o[k]) for k in ("l", "l2", "x", "x2") if o[k]]
+        args = [str(o[k]) for k in ("l", "l2", "x", "x2", "b") if o.get(k)]
         return "%s(%s)" % (o["op"], ",".join(args))
     return " ".join(one(o) for o in ops)
 
@@ -152,9 +188,15 @@ def categories(why):
     empty / left-fold / unregister - the other signal observables"""
     cats = set()
     for w in why:
-        if w.startswith(("forward", "backward")):
+        if w.startswith("forward-const"):
+            cats.add("const-iteration")
+        elif w.startswith("iterator"):
+            cats.add("iterator")
+        elif w.startswith(("forward", "backward")):
             cats.add("members")
-        elif w.startswith(("called", "call-", "callback")):
+        elif w in ("callback-argument", "call-throws"):
+            cats.add(w)
+        elif w.startswith(("called", "call-")):
             cats.add("callbacks")
         elif w.startswith("unregister"):
             cats.add("unregister")
@@ -197,10 +239,17 @@ def judge_lines(ctx, lines, what, path):
         items.append((len(ops), b, why, fl, ops))
     items.sort(key=lambda t: t[0])
     for n, b, why, fl, ops in items:
-        sig = "C11:%s:%s" % (b["op"], "+".join(categories(why)))
         ev = json.loads(lines[b["l"] - 1])
-        ctx.reject(sig, "%s [%s]: the specification cannot explain what the lists/signals show after %s (%s); history: %s%s" % (
-            what, fl, b["op"], ", ".join(why), fmt_ops(ops), ("; " + hint(fl, ops)) if hint(fl, ops) else ""),
+        if b.get("scope", "in") != "in":
+            sig = "C11:%s:%s" % (b["op"], "+".join(categories(why)))
+            observe(ctx, sig, "%s [%s]: after %s the specification expects something else (%s); history: %s" % (
+                what, fl, b["op"], ", ".join(why), fmt_ops(ops)), {"script": ops})
+            continue
+        inwhy = [w for w in why if w in IN_SCOPE_REASONS and (fl == "list" or w != "empty")]  # signal::empty(): observed only
+        sig = "C11:%s:%s" % (b["op"], "+".join(categories(inwhy)))
+        ctx.reject(sig, "%s [%s]: the specification cannot explain what the lists/signals show after %s (%s%s); history: %s%s" % (
+            what, fl, b["op"], ", ".join(inwhy), ("; observed only: " + ", ".join(w for w in why if w not in inwhy)) if len(inwhy) < len(why) else "",
+            fmt_ops(ops), ("; " + hint(fl, ops)) if hint(fl, ops) else ""),
             {"flavour": fl, "script": ops, "event": ev})
     return nev
 
@@ -239,9 +288,15 @@ def collect(path, rc, out, what, all_lines, rejections):
         if '"e":"reset"' in x:
             h = json.loads(x)["h"]
             break
+    if tail is None and rc == 66:
+        # no operation was in flight: a report at process exit (LeakSanitizer).  It cannot be attributed
+        # to a history and a leaked object is not something the statement of C11 talks about: observation
+        rejections.append((0, "C11:exit:sanitizer", "%s: sanitizer report at process exit: %s" % (what, detail), {"script": []}, False))
+        all_lines += lines
+        return None
     rejections.append((len(ops), "C11:%s:%s" % (opname, kind), "%s [%s]: %s during %s: %s; history: %s%s" % (
         what, fl, kind, opname, detail, fmt_ops(ops), ("; " + hint(fl, ops)) if hint(fl, ops) else ""),
-        {"flavour": fl, "script": ops, "partial_line": tail}))
+        {"flavour": fl, "script": ops, "partial_line": tail}, in_scope_history(hist, ops)))
     all_lines += lines
     all_lines.append('{"e":"aborted"}')
     return h
@@ -304,8 +359,11 @@ def run_record(ctx, binary, first, count, maxlen, tag):
 
 
 def apply_rejections(ctx, rejections):
-    for n, sig, what, payload in sorted(rejections, key=lambda t: t[0]):
-        ctx.reject(sig, what, payload)
+    for n, sig, what, payload, inscope in sorted(rejections, key=lambda t: t[0]):
+        if inscope:
+            ctx.reject(sig, what, payload)
+        else:
+            observe(ctx, sig, what, payload)
 
 
 def count_classes(ctx, lines):
@@ -337,16 +395,19 @@ def count_classes(ctx, lines):
 def model_check_jobs(ctx, thorough):
     """Thunks: the model checks of the specifications and the vacuity guards (run concurrently)."""
     cov = thorough
-    runs = [("Membership", "MC_Membership.cfg"), ("Ring", "MC_Ring_mut_list_move_ctor.cfg")]
+    runs = [("Membership", "MC_Membership.cfg"), ("Ring", "MC_Ring_mut_list_move_ctor.cfg"), ("Signal", "MC_Signal.cfg"),
+            ("Ring", "MC_Ring_34.cfg")]
     if thorough:
-        runs += [("Ring", "MC_Ring_big.cfg"), ("Ring", "MC_Ring_huge.cfg"), ("Signal", "MC_Signal_big.cfg")]
+        runs += [("Membership", "MC_Membership_big.cfg"), ("Ring", "MC_Ring_big.cfg"), ("Ring", "MC_Ring_huge.cfg"), ("Ring", "MC_Ring_iter_big.cfg"),
+                 ("Signal", "MC_Signal_big.cfg")]
 
     def mc(mod, cfg):
         r = mc_run(ctx, mod, cfg, workers=8, coverage=cov, timeout=3000, xmx="2g")
         if cov:
             c = {}
             for m in re.finditer(r"<(\w+) line \d+, col \d+ to line \d+, col \d+ of module \w+(?: \([\d ]+\))?>: (\d+):(\d+)", r.out):
-                c[m.group(1)] = (int(m.group(2)), int(m.group(3)))
+                t, g = c.get(m.group(1), (0, 0))   # an action with several disjuncts is listed once per disjunct
+                c[m.group(1)] = (t + int(m.group(2)), g + int(m.group(3)))
             acts = [a for a in ("Next", "RNext", "SNext") if a in c]
             zero = [a for a in acts if c[a][0] == 0]
             if zero or not acts:
@@ -379,17 +440,35 @@ def run(ctx):
     #    (lists) and of the signal model, and the harness build - all concurrently
     out = {}
     jobs = model_check_jobs(ctx, thorough) + [
-        lambda: out.__setitem__("small", emit_scripts(ctx, "Ring", "MC_Ring.cfg", 1000)),
-        lambda: out.__setitem__("big", emit_scripts(ctx, "Ring", "MC_Ring_34.cfg", 20000)),
-        lambda: out.__setitem__("sigs", emit_scripts(ctx, "Signal", "MC_Signal.cfg", 1000)),
+        lambda: out.__setitem__("small_all", emit_scripts(ctx, "Ring", "MC_Ring.cfg", 1000)),
+        lambda: out.__setitem__("small", emit_scripts(ctx, "Ring", "MC_Ring_inscope.cfg", 1000)),
+        lambda: out.__setitem__("big", emit_scripts(ctx, "Ring", "MC_Ring_34_inscope.cfg", 20000)),
+        lambda: out.__setitem__("iter", emit_scripts(ctx, "Ring", "MC_Ring_iter.cfg", 5000)),
+        lambda: out.__setitem__("sigs", emit_scripts(ctx, "Signal", "MC_Signal_inscope.cfg", 1000)),
+        lambda: out.__setitem__("owners", emit_scripts(ctx, "Signal", "MC_Signal_small.cfg", 1000)),
         lambda: out.__setitem__("binary", build()),
     ]
+    if thorough:
+        jobs.append(lambda: out.__setitem__("owners3", emit_scripts(ctx, "Signal", "MC_Signal_scripts.cfg", 50000)))
     vlib.parallel(lambda f: f(), jobs, workers=6)
     ctx.mc_runs.sort(key=lambda r: (r["module"], r["cfg"]))
     ctx.extra["vacuity_guards"].sort(key=lambda g: g["cfg"])
-    small, big, sigs, binary = out["small"], out["big"], out["sigs"], out["binary"]
+    binary = out["binary"]
+
+    def inscope(scripts):
+        return [sc for sc in scripts if all(o["op"] in IN_SCOPE_OPS for o in sc)]
+    # histories of the operations the statement names (the ACTION_CONSTRAINT of the *_inscope configs
+    # keeps the canonical paths free of the others; the last step is filtered here) ...
+    small, big, sigs = inscope(out["small"]), inscope(out["big"]), inscope(out["sigs"])
+    # ... and histories with the other judged operations (observed only)
+    unl = [sc for sc in out["small_all"] if any(o["op"] == "unlink" for o in sc)]
+    iters = [sc for sc in out["iter"] if any(o["op"].startswith("iter_") for o in sc)]
+    owners = [sc for sc in out["owners"] if any(o["op"] not in IN_SCOPE_OPS for o in sc)]
+    owners3 = [sc for sc in out.get("owners3", []) if any(o["op"] not in IN_SCOPE_OPS for o in sc)]
     # vacuity: every kind of operation is the last step of some generated transition
-    for name, scripts, kinds in (("Ring", big, LIST_KINDS), ("Ring (small)", small, LIST_KINDS), ("Signal", sigs, SIG_KINDS)):
+    for name, scripts, kinds in (("Ring 3x4", big, LIST_KINDS[:-1]), ("Ring 2x3", small + unl, LIST_KINDS),
+                                 ("Ring 2x3 with iterator", out["iter"], ITER_KINDS),
+                                 ("Signal", sigs, SIG_KINDS[:6]), ("Signal with owners", out["owners"], SIG_KINDS)):
         taken = {}
         for sc in scripts:
             if sc:
@@ -401,17 +480,22 @@ def run(ctx):
     # every script of the small list model three times so that the harness finishes it with each
     # of its three destruction orders (order = script index mod 3)
     small.sort(key=len)
+    nf = len(SIG_FLAVOURS)
     if thorough:
-        lscripts = [s for s in small for _ in range(3)] + big
-        jobs = [("list", lscripts)] + [(fl, [s for s in sigs for _ in range(3 if fl in ("sig", "uvsig") else 1)])
-                                       for fl in SIG_FLAVOURS]
+        lscripts = [s for s in small for _ in range(3)] + big[ctx.seed % 2::2] + unl + iters
+        jobs = [("list", lscripts)] + [
+            (fl, ([s for s in sigs for _ in range(3)] if fl == "sig" else sigs[(ctx.seed + k) % 2::2]) + owners[(ctx.seed + k) % 2::2]
+                 + owners3[(ctx.seed + k) % (4 * nf)::4 * nf])
+            for k, fl in enumerate(SIG_FLAVOURS)]
     else:
-        # quick: all transitions of the 2x3 list model (x3 orders), every 16th of the 3x4 model, all
-        # transitions of the signal model on the plain int signal and a different quarter on each
-        # of the other flavours
-        lscripts = [s for s in small for _ in range(3)] + big[ctx.seed % 16::16]
-        jobs = [("list", lscripts), ("sig", sigs)] + [
-            (fl, sigs[(ctx.seed + k) % 4::4]) for k, fl in enumerate(SIG_FLAVOURS[1:])]
+        # quick: all in-scope transitions of the 2x3 list model (x3 orders) and every 16th of the 3x4
+        # model, a quarter of the unlink transitions, every 8th of the iterator model; all in-scope
+        # transitions of the 2x3 signal model on the plain int(int) signal and a different eleventh on
+        # each of the other eleven flavours; the owner-operation transitions spread over all twelve
+        lscripts = [s for s in small for _ in range(3)] + big[ctx.seed % 16::16] + unl[ctx.seed % 4::4] + iters[ctx.seed % 8::8]
+        jobs = [("list", lscripts)] + [
+            (fl, (sigs if fl == "sig" else sigs[(ctx.seed + k) % (nf - 1)::nf - 1]) + owners[(ctx.seed + k) % nf::nf])
+            for k, fl in enumerate(SIG_FLAVOURS)]
     # 3. spec -> code
     res = vlib.parallel(lambda j: run_replay(ctx, binary, j[0], j[1], "TLC-generated script", j[0]), jobs)
     lines = []
@@ -424,6 +508,15 @@ def run(ctx):
     count_classes(ctx, lines)
     ctx.sample({"tlc_script": small[len(small) // 2]})
     ctx.sample({"tlc_signal_script": sigs[len(sigs) // 2]})
+    ctx.sample({"tlc_iterator_script_observed_only": iters[len(iters) // 2]})
+    ctx.sample({"tlc_owner_script_observed_only": owners[len(owners) // 2]})
+    # observation (outside the statement, undocumented): a callback that drops its OWN connection
+    rc, outp = vlib.run_harness(binary, ["probe_drop_self"], timeout=60)
+    kind, detail = classify_abort(rc, outp) if rc != 0 else ("ok", outp.strip().replace("\n", "; ")[:200])
+    ctx.extra["observed_only_probe_drop_own_connection_during_call"] = {"rc": rc, "result": kind, "detail": detail[:300]}
+    if rc != 0:
+        observe(ctx, "C11:reent_drop_self:%s" % kind, "a callback that destroys its own connection during the call: %s "
+                "(signal.doxygen is silent about reentrancy; not driven in histories, not judged)" % detail)
     # 4. code -> spec: seeded random histories, in rounds of 16 parallel ranges
     rounds, per, ml = (5, 500, 50) if thorough else (1, 250, 50)
     nw = 16
@@ -448,16 +541,20 @@ def run(ctx):
         if stats["aborted"] >= 3 * nw * MAX_ABORTS_PER_WORKER:
             break
     ctx.extra["recorded_histories"] = stats
-    ctx.rule = ("histories: (a) every generated transition of the complete state graph of the small TLC models (Ring 2 lists x 3 "
-                "elements, x3 destruction orders; Ring 3x4 %s; Signal 2x3 on the four signal flavours%s) as an op script, "
-                "(b) seeded random histories <= 50 ops over 3 lists/signals and 8 elements/connections, cycling through list / "
-                "signal flavours, everything destroyed in random order at the end; a class = (flavour, operation, "
-                "size bucket of the destination and of the source list/signal before the operation, any element alive) "
-                "of an executed event" % (("complete", " (x3 destruction orders on two of them)") if thorough else ("every 16th transition", ", a quarter each on three of them")))
+    ctx.rule = ("histories: (a) every generated transition of the complete state graphs of the small TLC models as an op script "
+                "(Ring 2 lists x 3 elements x3 destruction orders, Ring 3x4 %s, Ring 2x3 with a held iterator %s, Signal 2 signals x "
+                "3 connections on the 12 signal flavours (int/void result, plain/unregister base, 0/1/2 arguments)%s, Signal with "
+                "owner operations 2x2 + 1 container), (b) seeded random histories <= 50 ops over 3 lists/signals, 8 elements/"
+                "connections, 2 containers, cycling through the flavours: in-scope-only histories, extended histories (unlink, "
+                "iterators, owner moves, containers: observed only) and reentrant histories (never judged), everything destroyed "
+                "in random order at the end; a class = (flavour, operation, size bucket of the destination and of the source "
+                "list/signal before the operation, any element alive) of an executed event" % (
+                    ("every 2nd transition", "complete", " (all on int(int), half on each other)") if thorough else ("every 16th transition", "every 8th", " (all on int(int), an eleventh on each other)")))
     ctx.assumptions += [
         "writes through pointers to destroyed heads/elements are only OBSERVED via ASan in the harness (every node is a separate heap object), not decided by the TLA+ spec",
         "moving an object onto itself is not driven (the statement is silent); connections are not movable through the public API",
-        "a signal with a result type is only called while it has a combiner (a moved-from combiner is unspecified); callbacks do not connect/disconnect during a call",
+        "a signal with a result type is only called while it has a combiner (a moved-from combiner is unspecified)",
+        "only behaviour named by the statement of C11 can become a VIOLATION (operation kinds and reasons marked in scope in spec/RingTrace.tla); unlink, iterator steps, const iteration, moves of connection owners, containers, signal::empty(), callback arguments and reentrant callbacks are judged or driven but only reported under coverage.observations",
         "an element that is move-constructed/assigned from another takes over its place in the list (link order is the order of the links)",
         "Ring.tla is a hand transcription of base_impl.hpp/list_impl.hpp (repaired code); verdicts are only taken from traces of the real code judged by Membership.tla/Signal.tla",
     ]
